@@ -53,6 +53,8 @@ def _hashable(j):
 
 
 CLASS_DEFAULTS = [j for j in LOOKALIKES if _hashable(j)]
+SCALAR_LOOKALIKES = [j for j in LOOKALIKES if j["v"] in ("atom", "none")
+                     and j.get("tag") not in ("frozenset", "bytearray", "range")]
 
 
 class Gen:
@@ -76,7 +78,9 @@ class Gen:
         return self.rng.random() < p
 
     def lookalike(self):
-        return copy.deepcopy(self.rng.choice(LOOKALIKES))
+        # with pydantic around, a container constant given to a container-typed field is converted (() -> [])
+        pool = SCALAR_LOOKALIKES if self.pyd else LOOKALIKES
+        return copy.deepcopy(self.rng.choice(pool))
 
     def class_default(self):
         """a default usable in a class body of every kind (dataclass rejects unhashable defaults)"""
@@ -536,7 +540,8 @@ class Gen:
             recipe.append({"k": "link_constant", "dst": self.dst_pred(d, fid), "value": self.lookalike()})
         elif r < 0.32:
             if self.chance(0.5):
-                b = rng.choice(["list", "dict", "tuple", "str", "bytes", "NoneType"])
+                b = rng.choice(["str", "bytes", "NoneType"] if self.pyd else
+                               ["list", "dict", "tuple", "str", "bytes", "NoneType"])
                 from harness.props.c13_oracle import FACTORY_LITERALS
                 recipe.append({"k": "link_constant", "dst": self.dst_pred(d, fid), "factory": 900, "builtin": b,
                                "lit": FACTORY_LITERALS[b]})
